@@ -107,3 +107,6 @@ package surveyor
 //@
 //@ func (*survey).cancel$1
 //@   may_close s.recvQ once
+//@
+//@ func (*context).SendMsg
+//@   ensures !isnil(result) ==> result == protocol.ErrClosed && m.Body == old(m.Body) && m.Header == old(m.Header) && same_elems(old(m.Body))
